@@ -111,7 +111,7 @@ def main():
     # ---- 2: build
     mods = [props_mod, driver_mod]
     clean = tier == "thorough" and replay_file is None
-    ok, log, failing, build_s = lean.build(mods, clean=clean)
+    ok, log, failing, build_s = lean.build(mods, clean=clean, only=prop)
     names = lean.theorems_in(props_mod)
     undischarged = {}
     if not ok:
